@@ -977,6 +977,14 @@ def run(res, tier):
     for v in sub10.violations:
         res.violation("C10.10.cell-of-position", v["file"], v["function"], v["key"], v["line"], v["msg"])
     res.floor("C10.10", len([i for i in sub10.instances if i["rule"].startswith("C06.6.cell-of-position")]), 2, "returns of getTreeCoordinate")
+    res.rule("C10.11 the shifted images handed to the near field are computed from the current particles on every call: the numeric kernels and the periodic shifter keep no mutable member (rule C04.5b) that could hand out the images of an earlier execution")
+    import c04 as _c04
+    sub11 = tbf.Result("C04")
+    n11 = sum(_c04.no_mutable_members(facts, sub11, "C04.5b", pre_) for pre_ in ("src/kernels/rotationkernel/", "src/kernels/unifkernel/", "src/utils/tbfperiodicshifter"))
+    for v in sub11.violations:
+        res.violation("C10.11.images-of-current-particles", v["file"], v["function"], v["key"], v["line"], v["msg"])
+    res.instance("C10.11.images-of-current-particles", "classes", "src/kernels, src/utils/tbfperiodicshifter.hpp", "%d classes examined, no mutable member" % n11)
+    res.floor("C10.11", n11, 8, "classes examined for mutable members")
     morton_nb = morton_interactions(facts)
     res.instance("C10.2.window-extent", "getNbInteractionsPerCell", "src/spacial/tbfmortonspaceindex.hpp", "%d^Dim - %d^Dim" % morton_nb)
     summ = {}
